@@ -491,7 +491,10 @@ func decodeResponseBody[R any](simpleAPISelf *SimpleAPIDef, response *APIRespons
 
 	var tempTarget interface{}
 	tempTarget, response.Err = simpleAPISelf.ResponseDeserializer(responseBody, target)
-	response.TargetObject = tempTarget.(*R)
+	// a deserializer may return (nil, err): keep the error instead of panicking on the assertion
+	if typedTarget, ok := tempTarget.(*R); ok {
+		response.TargetObject = typedTarget
+	}
 	return response
 }
 
